@@ -82,8 +82,8 @@ CHECKS = {
                 ref='3/C15'),
     'C16': dict(cat='other', engine='E2',
                 technique='bounded symbolic execution of the real assemblers (classic and DomainAssembler job route) on one cell with symbolic vertex coordinates; entry-wise identities and an independent closed-form Lagrange1 oracle decided by z3',
-                text='Partial (stated): on one symbolic cell per shape the real SymbolicAssembler / BilinearOperatorAssembler / LinearFunctionalAssembler / DomainAssembler jobs are executed; z3 decides classic == job route, Laplace row sums = 0, symmetry, sum of mass entries = sum_q w_q detJ(x_q), alpha-scaled repeated assembly, and for Lagrange1 that every entry equals an independent cubature sum of the textbook integrand. "Equals the integral" = this identity composed with C14 (rule exactness). Voxel slice: the shared host/device cell kernel of the voxel Poisson assembler (Q2) on one non-affine quadrilateral (thorough: hexahedron) equals the classic Laplace assembly entry by entry.',
-                note='Trusted: SymReal, z3 5.1.0, hand-written reference P1/Q1 basis + adjugate Jacobian inverse in the oracle. Several rational-function identities on general cells time out in the quick tier (inconclusive, listed). Outside: multi-cell scatter, the voxel assembler drivers around the cell kernel and the other voxel kernels (Burgers, defo), Burgers/defo assemblers, threaded routes (C17): the seeded change in the Burgers streamline-diffusion term is NOT detected.',
+                text='Partial (stated): on one symbolic cell per shape the real SymbolicAssembler / BilinearOperatorAssembler / LinearFunctionalAssembler / DomainAssembler jobs are executed; z3 decides classic == job route, Laplace row sums = 0, symmetry, sum of mass entries = sum_q w_q detJ(x_q), alpha-scaled repeated assembly, and for Lagrange1 that every entry equals an independent cubature sum of the textbook integrand. "Equals the integral" = this identity composed with C14 (rule exactness). Voxel slice: the shared host/device cell kernel of the voxel Poisson assembler (Q2) on one non-affine quadrilateral (thorough: hexahedron) equals the classic Laplace assembly entry by entry. Burgers slice: assemble_matrix(w)*u == assemble_vector(w,u) (gradient and deformation tensor), scaled/repeated assembly, and blocked == scalar matrix with streamline diffusion for a convection field vanishing at a cell barycentre, for all symbolic fields and parameters on a 4-cell mesh.',
+                note='Trusted: SymReal, z3 5.1.0, hand-written reference P1/Q1 basis + adjugate Jacobian inverse in the oracle. Several rational-function identities on general cells time out in the quick tier (inconclusive, listed). Outside: multi-cell scatter, the voxel assembler drivers around the cell kernel and the other voxel kernels (Burgers, defo), the Frechet term of the Burgers assembler, threaded routes (C17).',
                 ref='3/C16'),
     'C17': dict(cat='model_checking', engine='E3',
                 technique='own IR symbolic executor on the real DomainAssembler compile step with symbolic threading strategy and worker count (solver-guided forking over every value); partition / adjacency / two-layers-per-worker oracles per path',
